@@ -217,6 +217,11 @@ class Tr:
             raise Untranslatable("compound assignment to " + str(m))
         if k == "CXXMemberCallExpr":
             callee = kids(n)[0]
+            if callee.get("kind") == "MemberExpr" and callee.get("name") == "clear" and len(kids(n)) == 1:
+                obj = self.member(kids(callee)[0])
+                if obj in self.cfg["strs"]:
+                    return "(SClear %d%%nat)" % self.cfg["strs"].index(obj)
+                raise Untranslatable("clear() of " + str(obj))
             if callee.get("kind") == "MemberExpr" and callee.get("name") == "push_back":
                 obj = self.member(kids(callee)[0])
                 if obj in self.cfg["strs"]:
@@ -261,21 +266,320 @@ class Tr:
             items.append("(None, %s)" % self.stmt(c))
 
 
+
+class LTr:
+    """the buffer-level parse(iter, end) bodies -> M_Loop.lstmt"""
+    def __init__(self, cfg, enum_index):
+        self.cfg, self.enum = cfg, enum_index
+        self.base = Tr(cfg, enum_index)
+
+    def ref(self, n, name):
+        n = strip(n)
+        return n.get("kind") == "DeclRefExpr" and n.get("referencedDecl", {}).get("name") == name
+
+    def deref_iter(self, n):
+        n = strip(n)
+        return n.get("kind") == "UnaryOperator" and n.get("opcode") == "*" and self.ref(kids(n)[0], "iter")
+
+    def enum_const(self, n):
+        n = strip(n)
+        if n.get("kind") == "DeclRefExpr" and n.get("referencedDecl", {}).get("kind") == "EnumConstantDecl":
+            name = n["referencedDecl"]["name"]
+            if name in self.enum:
+                return self.enum[name]
+        return None
+
+    def flag(self, m):
+        if m in self.cfg["nums"] and m in self.cfg.get("flags", ("valid_", "fail_")):
+            return self.cfg["nums"].index(m)
+        raise Untranslatable("bool member " + str(m))
+
+    def lexp(self, n):
+        n = strip(n)
+        k = n.get("kind")
+        if k == "CXXBoolLiteralExpr":
+            return "(LConst %s)" % ("true" if n.get("value") else "false")
+        if k == "UnaryOperator" and n.get("opcode") == "!":
+            return "(LNot %s)" % self.lexp(kids(n)[0])
+        if k == "BinaryOperator" and n.get("opcode") in ("&&", "||"):
+            a, b = kids(n)
+            return "(%s %s %s)" % ("LAnd" if n["opcode"] == "&&" else "LOr", self.lexp(a), self.lexp(b))
+        if k == "BinaryOperator" and n.get("opcode") in ("==", "!="):
+            a, b = kids(n)
+            neg = n["opcode"] == "!="
+            if (self.ref(a, "iter") and self.ref(b, "end")) or (self.ref(a, "end") and self.ref(b, "iter")):
+                return "LMore" if neg else "(LNot LMore)"
+            for x, y in ((a, b), (b, a)):
+                e = self.enum_const(x)
+                if e is not None and self.base.member(y) == self.cfg["state"]:
+                    return ("(LNot (LStateIs %d%%nat))" if neg else "(LStateIs %d%%nat)") % e
+            raise Untranslatable("comparison in parse")
+        if k == "BinaryOperator" and n.get("opcode") == "=":
+            lhs, rhs = kids(n)
+            return "(LAssign %d%%nat %s)" % (self.flag(self.base.member(lhs)), self.lexp(rhs))
+        if k == "CXXMemberCallExpr":
+            callee = kids(n)[0]
+            if callee.get("kind") == "MemberExpr" and callee.get("name") == "parse_char" and strip(kids(callee)[0]).get("kind") == "CXXThisExpr":
+                args = kids(n)[1:]
+                if len(args) == 1 and self.ref(args[0], "c"):
+                    return "LCall"
+            raise Untranslatable("member call in parse")
+        if k == "CallExpr":
+            f = strip(kids(n)[0]); name = f.get("referencedDecl", {}).get("name"); args = kids(n)[1:]
+            if name in PREDS and len(args) == 1 and self.deref_iter(args[0]):
+                return "(LPeek %s)" % PREDS[name]
+            raise Untranslatable("call of %s in parse" % name)
+        m = self.base.member(n)
+        if m is not None:
+            return "(LFlag %d%%nat)" % self.flag(m)
+        raise Untranslatable("expression in parse: " + str(k))
+
+    def seq(self, l):
+        l = [x for x in l if x != "LSkip"]
+        if not l:
+            return "LSkip"
+        out = l[-1]
+        for x in reversed(l[:-1]):
+            out = "(LSeq %s %s)" % (x, out)
+        return out
+
+    def lstmt(self, n):
+        k = n.get("kind")
+        if k == "CompoundStmt":
+            return self.seq([self.lstmt(c) for c in kids(n)])
+        if k == "NullStmt":
+            return "LSkip"
+        if k == "DeclStmt":
+            vs = kids(n)
+            if len(vs) == 1 and vs[0].get("kind") == "VarDecl" and vs[0].get("name") == "c" and kids(vs[0]):
+                init = strip(kids(vs[0])[0])
+                if init.get("kind") == "UnaryOperator" and init.get("opcode") == "*":
+                    inc = strip(kids(init)[0])
+                    if inc.get("kind") == "UnaryOperator" and inc.get("opcode") == "++" and inc.get("isPostfix") and self.ref(kids(inc)[0], "iter"):
+                        return "LNext"
+            raise Untranslatable("declaration in parse")
+        if k == "WhileStmt":
+            cond, body = kids(n)
+            return "(LWhile %s %s)" % (self.lexp(cond), self.lstmt(body))
+        if k == "IfStmt":
+            ks = kids(n)
+            els = ks[2] if len(ks) > 2 else None
+            return "(LIf %s %s %s)" % (self.lexp(ks[0]), self.lstmt(ks[1]), self.lstmt(els) if els is not None else "LSkip")
+        if k == "ReturnStmt":
+            return "(LReturn %s)" % self.lexp(kids(n)[0])
+        if k == "BinaryOperator" and n.get("opcode") == "=":
+            lhs, rhs = kids(n)
+            m = self.base.member(lhs)
+            if m == self.cfg["state"]:
+                e = self.enum_const(rhs)
+                if e is None:
+                    raise Untranslatable("state_ = ? in parse")
+                return "(LState %d%%nat)" % e
+            return "(LDo %s)" % self.lexp(n)
+        if k == "CXXMemberCallExpr":
+            callee = kids(n)[0]
+            if callee.get("kind") == "MemberExpr" and callee.get("name") == "push_back":
+                obj = self.base.member(kids(callee)[0]); arg = strip(kids(n)[1])
+                if obj in self.cfg["strs"] and arg.get("kind") == "CharacterLiteral":
+                    return "(LPush %d%%nat %d)" % (self.cfg["strs"].index(obj), int(arg["value"]))
+            raise Untranslatable("member call statement in parse")
+        raise Untranslatable("statement in parse: " + str(k))
+
+
+
+class HTr:
+    """message_headers::parse(iter, end) -> M_Hdr.hstmt"""
+    NUMS = ["valid_", "fail_", "cr_", "length_"]
+    LIMITS = ["MAX_HEADER_NUMBER", "MAX_HEADER_LENGTH"]
+
+    def this_member(self, n):
+        n = strip(n)
+        if n.get("kind") == "MemberExpr" and kids(n) and strip(kids(n)[0]).get("kind") == "CXXThisExpr":
+            return n.get("name")
+        return None
+
+    def ref(self, n, name):
+        n = strip(n)
+        return n.get("kind") == "DeclRefExpr" and n.get("referencedDecl", {}).get("name") == name
+
+    def deref_iter(self, n):
+        n = strip(n)
+        return n.get("kind") == "UnaryOperator" and n.get("opcode") == "*" and self.ref(kids(n)[0], "iter")
+
+    def field_call(self, n):
+        """field_.f(...) -> (f, args) or None"""
+        n = strip(n)
+        if n.get("kind") == "CXXMemberCallExpr":
+            callee = kids(n)[0]
+            if callee.get("kind") == "MemberExpr" and self.this_member(kids(callee)[0]) == "field_":
+                return callee.get("name"), kids(n)[1:]
+        return None
+
+    def num(self, m):
+        if m in self.NUMS:
+            return self.NUMS.index(m)
+        raise Untranslatable("message_headers member " + str(m))
+
+    def hnexp(self, n):
+        n = strip(n)
+        k = n.get("kind")
+        if k == "SubstNonTypeTemplateParmExpr":
+            name = [c for c in (n.get("inner") or []) if c.get("kind") == "NonTypeTemplateParmDecl"][0]["name"]
+            if name in self.LIMITS:
+                return "(HLim %d%%nat)" % self.LIMITS.index(name)
+            raise Untranslatable("template parameter " + name)
+        m = self.this_member(n)
+        if m is not None:
+            return "(HNum %d%%nat)" % self.num(m)
+        fc = self.field_call(n)
+        if fc and fc[0] == "length" and not fc[1]:
+            return "HFieldLength"
+        if k == "CXXMemberCallExpr":
+            callee = kids(n)[0]
+            if callee.get("kind") == "MemberExpr" and callee.get("name") == "size" and self.this_member(kids(callee)[0]) == "fields_":
+                return "HFieldsSize"
+        raise Untranslatable("numeric expression in message_headers::parse: " + str(k))
+
+    def hexp(self, n):
+        n = strip(n)
+        k = n.get("kind")
+        if k == "CXXBoolLiteralExpr":
+            return "(HConst %s)" % ("true" if n.get("value") else "false")
+        if k == "UnaryOperator" and n.get("opcode") == "!":
+            return "(HNot %s)" % self.hexp(kids(n)[0])
+        if k == "BinaryOperator" and n.get("opcode") in ("&&", "||"):
+            a, b = kids(n)
+            return "(%s %s %s)" % ("HAnd" if n["opcode"] == "&&" else "HOr", self.hexp(a), self.hexp(b))
+        if k == "BinaryOperator" and n.get("opcode") in ("==", "!="):
+            a, b = kids(n)
+            neg = n["opcode"] == "!="
+            if (self.ref(a, "iter") and self.ref(b, "end")) or (self.ref(a, "end") and self.ref(b, "iter")):
+                return "HMore" if neg else "HAtEnd"
+            for x, y in ((a, b), (b, a)):
+                if strip(x).get("kind") == "CharacterLiteral" and self.deref_iter(y):
+                    e = "(HPeekIs %d)" % int(strip(x)["value"])
+                    return "(HNot %s)" % e if neg else e
+            raise Untranslatable("comparison in message_headers::parse")
+        if k == "BinaryOperator" and n.get("opcode") == ">":
+            a, b = kids(n)
+            return "(HGt %s %s)" % (self.hnexp(a), self.hnexp(b))
+        if k == "CallExpr":
+            f = strip(kids(n)[0]); name = f.get("referencedDecl", {}).get("name"); args = kids(n)[1:]
+            if name in PREDS and len(args) == 1 and self.deref_iter(args[0]):
+                return "(HPeek %s)" % PREDS[name]
+            raise Untranslatable("call of %s in message_headers::parse" % name)
+        fc = self.field_call(n)
+        if fc:
+            name, args = fc
+            if name == "started" and not args:
+                return "HFieldStarted"
+            if name == "fail" and not args:
+                return "HFieldFail"
+            if name == "parse" and len(args) == 2 and self.ref(args[0], "iter") and self.ref(args[1], "end"):
+                return "HFieldParse"
+            raise Untranslatable("field_." + str(name))
+        m = self.this_member(n)
+        if m is not None:
+            return "(HFlag %d%%nat)" % self.num(m)
+        raise Untranslatable("expression in message_headers::parse: " + str(k))
+
+    def seq(self, l):
+        l = [x for x in l if x != "HSkip"]
+        if not l:
+            return "HSkip"
+        out = l[-1]
+        for x in reversed(l[:-1]):
+            out = "(HSeq %s %s)" % (x, out)
+        return out
+
+    def hstmt(self, n):
+        k = n.get("kind")
+        if k == "CompoundStmt":
+            return self.seq([self.hstmt(c) for c in kids(n)])
+        if k == "NullStmt":
+            return "HSkip"
+        if k == "WhileStmt":
+            cond, body = kids(n)
+            return "(HWhile %s %s)" % (self.hexp(cond), self.hstmt(body))
+        if k == "IfStmt":
+            ks = kids(n)
+            els = ks[2] if len(ks) > 2 else None
+            return "(HIf %s %s %s)" % (self.hexp(ks[0]), self.hstmt(ks[1]), self.hstmt(els) if els is not None else "HSkip")
+        if k == "ReturnStmt":
+            return "(HReturn %s)" % self.hexp(kids(n)[0])
+        if k == "BinaryOperator" and n.get("opcode") == "=":
+            lhs, rhs = kids(n)
+            m = self.this_member(lhs)
+            if m in ("valid_", "fail_", "cr_"):
+                return "(HSet %d%%nat %s)" % (self.num(m), self.hexp(rhs))
+            raise Untranslatable("assignment to " + str(m))
+        if k == "CompoundAssignOperator" and n.get("opcode") == "+=":
+            lhs, rhs = kids(n)
+            m = self.this_member(lhs)
+            if m == "length_":
+                return "(HAddTo %d%%nat %s)" % (self.num(m), self.hnexp(rhs))
+            raise Untranslatable("+= on " + str(m))
+        if k == "UnaryOperator" and n.get("opcode") == "++" and self.ref(kids(n)[0], "iter"):
+            return "HAdvance"
+        if k in ("ExprWithCleanups",):
+            return self.hstmt(kids(n)[0])
+        if k == "CXXMemberCallExpr":
+            fc = self.field_call(n)
+            if fc and fc[0] == "clear" and not fc[1]:
+                return "HFieldClear"
+            callee = kids(n)[0]
+            if callee.get("kind") == "MemberExpr" and callee.get("name") == "add" and strip(kids(callee)[0]).get("kind") == "CXXThisExpr":
+                args = kids(n)[1:]
+                if len(args) == 2:
+                    got = []
+                    for a in args:
+                        names = [self.field_call(m)[0] for m in walk(a) if self.field_call(m)]
+                        got.append(names)
+                    if got == [["name"], ["value"]]:
+                        return "HAddField"
+            raise Untranslatable("member call statement in message_headers::parse")
+        raise Untranslatable("statement in message_headers::parse: " + str(k))
+
+
+def translate_headers():
+    inst = "via::http::message_headers<100, 65534, 1024, 8, false>"
+    with tempfile.TemporaryDirectory() as d:
+        tu = os.path.join(d, "tu.cpp")
+        with open(tu, "w") as f:
+            f.write('#include "via/http/headers.hpp"\n')
+            f.write("template class %s;\n" % inst)
+            f.write("template bool %s::parse<const char*>(const char*&, const char*);\n" % inst)
+        p = subprocess.run(["clang++", "-std=c++17", "-I" + os.path.join(REPO, "include"), "-fsyntax-only",
+                            "-Xclang", "-ast-dump=json", "-Xclang", "-ast-dump-filter=message_headers", tu],
+                           stdout=subprocess.PIPE, stderr=subprocess.PIPE, text=True)
+        if p.returncode != 0:
+            raise Untranslatable("clang: " + p.stderr[-400:])
+        docs = load_docs(p.stdout)
+    for dd in docs:
+        for n in walk(dd):
+            if n.get("kind") == "ClassTemplateSpecializationDecl" and n.get("name") == "message_headers":
+                pr = [m for m in walk(n) if m.get("kind") == "CXXMethodDecl" and m.get("name") == "parse" and any(c.get("kind") == "CompoundStmt" for c in kids(m))
+                      and any(c.get("kind") == "TemplateArgument" for c in (m.get("inner") or []))]
+                if pr:
+                    return HTr().hstmt([c for c in kids(pr[0]) if c.get("kind") == "CompoundStmt"][0])
+    raise Untranslatable("message_headers::parse: no instantiated body found")
+
+
 CLASSES = [
     dict(name="rl", cls="request_line", header="via/http/request.hpp", enum="Request", state="state_", param="c",
-         strs=["method_", "uri_"], nums=["ws_count_", "major_version_", "minor_version_"],
+         strs=["method_", "uri_"], nums=["ws_count_", "major_version_", "minor_version_", "valid_", "fail_"],
          limits=["MAX_URI_LENGTH", "MAX_METHOD_LENGTH", "MAX_WHITESPACE_CHARS"],
          inst={"lax": "via::http::request_line<8190, 8, 8, false>", "strict": "via::http::request_line<8190, 8, 8, true>"}),
     dict(name="sl", cls="response_line", header="via/http/response.hpp", enum="Response", state="state_", param="c",
-         strs=["reason_phrase_"], nums=["ws_count_", "major_version_", "minor_version_", "status_", "status_read_"],
+         strs=["reason_phrase_"], nums=["ws_count_", "major_version_", "minor_version_", "status_", "status_read_", "valid_", "fail_"],
          limits=["MAX_STATUS_NUMBER", "MAX_REASON_LENGTH", "MAX_WHITESPACE_CHARS"],
          inst={"lax": "via::http::response_line<65534, 65534, 254, false>", "strict": "via::http::response_line<65534, 65534, 254, true>"}),
     dict(name="fl", cls="field_line", header="via/http/headers.hpp", enum="Header", state="state_", param="c",
-         strs=["name_", "value_"], nums=["length_", "ws_count_"],
-         limits=["MAX_LINE_LENGTH", "MAX_WHITESPACE_CHARS"],
+         strs=["name_", "value_"], nums=["length_", "ws_count_", "fail_"],
+         limits=["MAX_LINE_LENGTH", "MAX_WHITESPACE_CHARS"], accessors=["started", "fail", "length", "name", "value"],
          inst={"lax": "via::http::field_line<1024, 8, false>", "strict": "via::http::field_line<1024, 8, true>"}),
     dict(name="ck", cls="chunk_header", header="via/http/chunk.hpp", enum="Chunk", state="state_", param="c",
-         strs=["hex_size_", "extension_"], nums=["length_", "ws_count_", "size_", "size_read_", "max_chunk_size_"],
+         strs=["hex_size_", "extension_"], nums=["length_", "ws_count_", "size_", "size_read_", "max_chunk_size_", "valid_", "fail_"],
          limits=["MAX_LINE_LENGTH", "MAX_WHITESPACE_CHARS"],
          inst={"lax": "via::http::chunk_header<1024, 8, false>", "strict": "via::http::chunk_header<1024, 8, true>"}),
 ]
@@ -288,6 +592,7 @@ def translate_class(cfg):
             f.write('#include "%s"\n' % cfg["header"])
             for v in cfg["inst"].values():
                 f.write("template class %s;\n" % v)
+                f.write("template bool %s::parse<const char*>(const char*&, const char*);\n" % v)
         p = subprocess.run(["clang++", "-std=c++17", "-I" + os.path.join(REPO, "include"), "-fsyntax-only",
                             "-Xclang", "-ast-dump=json", "-Xclang", "-ast-dump-filter=" + cfg["cls"], tu],
                            stdout=subprocess.PIPE, stderr=subprocess.PIPE, text=True)
@@ -295,22 +600,26 @@ def translate_class(cfg):
             raise Untranslatable("clang: " + p.stderr[-400:])
         docs = load_docs(p.stdout)
     specs = []
+    clsnode = {}
     enum_index = None
     for dd in docs:
         for n in walk(dd):
             if n.get("kind") == "ClassTemplateSpecializationDecl" and n.get("name") == cfg["cls"]:
                 ms = [m for m in kids(n) if m.get("kind") == "CXXMethodDecl" and m.get("name") == "parse_char" and any(c.get("kind") == "CompoundStmt" for c in kids(m))]
-                if not ms:
+                cl = [m for m in kids(n) if m.get("kind") == "CXXMethodDecl" and m.get("name") == "clear" and any(c.get("kind") == "CompoundStmt" for c in kids(m))]
+                pr = [m for m in walk(n) if m.get("kind") == "CXXMethodDecl" and m.get("name") == "parse" and any(c.get("kind") == "CompoundStmt" for c in kids(m))
+                      and any(c.get("kind") == "TemplateArgument" for c in (m.get("inner") or []))]
+                if not ms or not cl or not pr:
                     continue
                 args = [a.get("value") for a in (n.get("inner") or []) if a.get("kind") == "TemplateArgument"]
                 en = [e for e in kids(n) if e.get("kind") == "EnumDecl" and e.get("name") == cfg["enum"]]
                 if en:
                     enum_index = {c["name"]: i for i, c in enumerate(x for x in kids(en[0]) if x.get("kind") == "EnumConstantDecl")}
-                specs.append((args, ms[0]))
+                specs.append((args, ms[0], cl[0], pr[0])); clsnode[id(pr[0])] = n
     if enum_index is None or len(specs) != len(cfg["inst"]):
         raise Untranslatable("%s: expected %d instantiations with an enumeration, found %d" % (cfg["cls"], len(cfg["inst"]), len(specs)))
     out = {}
-    for args, m in specs:
+    for args, m, clr, prs in specs:
         strict = args[-1] not in (0, "0", False, "false")
         body = [c for c in kids(m) if c.get("kind") == "CompoundStmt"][0]
         consts = {}
@@ -321,12 +630,41 @@ def translate_class(cfg):
                         consts[v["name"]] = int(lit["value"]); break
         tr = Tr(cfg, enum_index, consts)
         out["strict" if strict else "lax"] = tr.stmt(body)
+        out["clear"] = Tr(cfg, enum_index).stmt([c for c in kids(clr) if c.get("kind") == "CompoundStmt"][0])
+        loop = LTr(cfg, enum_index).lstmt([c for c in kids(prs) if c.get("kind") == "CompoundStmt"][0])
+        if out.get("parse", loop) != loop:
+            raise Untranslatable("%s::parse differs between the instantiations" % cfg["cls"])
+        out["parse"] = loop
+        if cfg.get("accessors"):
+            tr0 = Tr(cfg, enum_index)
+            acc = {}
+            for an in cfg["accessors"]:
+                ms2 = [m for m in kids(clsnode[id(prs)]) if m.get("kind") == "CXXMethodDecl" and m.get("name") == an and any(c.get("kind") == "CompoundStmt" for c in kids(m))]
+                if len(ms2) != 1:
+                    raise Untranslatable("%s::%s" % (cfg["cls"], an))
+                b = [c for c in kids(ms2[0]) if c.get("kind") == "CompoundStmt"][0]
+                rs = kids(b)
+                if len(rs) != 1 or rs[0].get("kind") != "ReturnStmt":
+                    raise Untranslatable("%s::%s is not a single return" % (cfg["cls"], an))
+                e = kids(rs[0])[0]
+                if an in ("started", "fail"):
+                    acc[an] = tr0.bexp(e)
+                elif an == "length":
+                    acc[an] = tr0.nexp(e)
+                else:
+                    m = tr0.member(e)
+                    if m not in cfg["strs"]:
+                        raise Untranslatable("%s::%s returns %s" % (cfg["cls"], an, m))
+                    acc[an] = "%d%%nat" % cfg["strs"].index(m)
+            if out.get("acc", acc) != acc:
+                raise Untranslatable("%s accessors differ between the instantiations" % cfg["cls"])
+            out["acc"] = acc
     return enum_index, out
 
 
 def main(dest):
     lines = ["(* Gen_Parse.v — GENERATED by translate/parse.py from the headers under include/via/http: do not edit. *)",
-             "From Via Require Import M_Char M_Parse M_Imp.", "From Coq Require Import List NArith.", "Import ListNotations.", "Local Open Scope N_scope.", ""]
+             "From Via Require Import M_Char M_Parse M_Imp M_Loop M_Hdr.", "From Coq Require Import List NArith.", "Import ListNotations.", "Local Open Scope N_scope.", ""]
     for cfg in CLASSES:
         enum_index, progs = translate_class(cfg)
         names = sorted(enum_index, key=enum_index.get)
@@ -334,7 +672,21 @@ def main(dest):
         lines.append("Definition %s_states : nat := %d%%nat." % (cfg["name"], len(names)))
         for variant in ("lax", "strict"):
             lines.append("Definition %s_src_%s : stmt :=\n  %s." % (cfg["name"], variant, progs[variant]))
+        lines.append("(* %s::clear *)" % cfg["cls"])
+        lines.append("Definition %s_clear_src : stmt :=\n  %s." % (cfg["name"], progs["clear"]))
+        lines.append("(* %s::parse(iter, end) *)" % cfg["cls"])
+        lines.append("Definition %s_parse_src : lstmt :=\n  %s." % (cfg["name"], progs["parse"]))
+        if "acc" in progs:
+            a = progs["acc"]
+            lines.append("(* %s: started(), fail(), length(), name(), value() *)" % cfg["cls"])
+            lines.append("Definition %s_started_src : bexp := %s." % (cfg["name"], a["started"]))
+            lines.append("Definition %s_fail_src : bexp := %s." % (cfg["name"], a["fail"]))
+            lines.append("Definition %s_length_src : nexp := %s." % (cfg["name"], a["length"]))
+            lines.append("Definition %s_name_src : nat := %s." % (cfg["name"], a["name"]))
+            lines.append("Definition %s_value_src : nat := %s." % (cfg["name"], a["value"]))
         lines.append("")
+    lines.append("(* message_headers::parse(iter, end) *)")
+    lines.append("Definition hd_parse_src : hstmt :=\n  %s." % translate_headers())
     txt = "\n".join(lines) + "\n"
     with open(dest, "w") as f:
         f.write(txt)
